@@ -64,6 +64,14 @@ def range (start end_ : Option Bytes) (ascending inclusive : Bool) (m : KVs) : K
   let f := m.filter (fun p => inRange start end_ inclusive p.1)
   if ascending then f else f.reverse
 
+/-- The prefix of a list that a stopping callback gets to see (`cb … = true` = stop, the element
+it stopped on included) and whether it stopped. -/
+def takeUntil (cb : Bytes → Bytes → Bool) : KVs → KVs × Bool
+  | [] => ([], false)
+  | p :: rest =>
+    if cb p.1 p.2 then ([p], true)
+    else ((p :: (takeUntil cb rest).1), (takeUntil cb rest).2)
+
 /-- What each read returns on a map. -/
 def read (m : KVs) : Read → ReadResult
   | .get k => .get (rank k m) (lookup k m)
